@@ -129,6 +129,9 @@ void point(const char* site, const void* addr = nullptr);
 // has passed. Returns true if pred() held when the thread was resumed.
 bool block_until(const std::function<bool()>& pred, i64 deadline_ns, const char* what);
 void sleep_ns(i64 ns);
+// Block until every other live thread waits, without a deadline, for something that has not happened yet (or the
+// time-out passes). Lets a harness act "once the system has gone quiet" under thread stalls of any length.
+bool quiesce(i64 timeout_ns);
 
 // ---- simulated time & events ---------------------------------------------------
 i64 now_ns();
